@@ -151,6 +151,15 @@ var c06Invalid = []struct {
 	formats []string
 	apply   func(env *engine.Env, d fixture.Doc, f string)
 }{
+	// file references that are nothing but a reference to an unset variable: a file of that name does not exist (and an
+	// empty path is no configured file either way: the setting was made)
+	{"changelog-unset-reference", []string{"deb", "rpm"}, func(env *engine.Env, d fixture.Doc, f string) { d["changelog"] = "${C06_UNSET_VARIABLE}" }},
+	{"script-unset-reference", []string{"deb", "rpm", "apk", "ipk", "archlinux"}, func(env *engine.Env, d fixture.Doc, f string) {
+		d["scripts"] = map[string]any{"postinstall": "${C06_UNSET_VARIABLE}"}
+	}},
+	{"script-unset-reference-with-suffix", []string{"deb", "rpm", "apk", "ipk", "archlinux"}, func(env *engine.Env, d fixture.Doc, f string) {
+		d["scripts"] = map[string]any{"preremove": "${C06_UNSET_VARIABLE}/pre.sh"}
+	}},
 	{"deb-compression-unknown", []string{"deb"}, func(env *engine.Env, d fixture.Doc, f string) { d["deb"] = map[string]any{"compression": "bzip2"} }},
 	{"rpm-compression-unknown", []string{"rpm"}, func(env *engine.Env, d fixture.Doc, f string) { d["rpm"] = map[string]any{"compression": "bzip2"} }},
 	{"rpm-compression-level-malformed", []string{"rpm"}, func(env *engine.Env, d fixture.Doc, f string) { d["rpm"] = map[string]any{"compression": "gzip:fast"} }},
